@@ -58,6 +58,9 @@ class Scenario:
     fine_ops: tuple[str, ...] | None = ("set_status", "retrieve")   # ops whose internals are preemptible
     spawn_workers: bool = True          # pollers start a worker actor per yielded invocation
     settle: bool = False                # after the run: recovery + a surviving runner until quiet
+    hist_order: str = "fifo"            # late writers: fifo | lifo | random (interleaved by the policy)
+    app_config: dict[str, Any] = field(default_factory=dict)      # extra pynenc configuration values
+    values: dict[str, list] = field(default_factory=dict)    # inv -> value returned / raised per execution
 
     def ckey(self, inv: str) -> str:
         """The running-concurrency key of an invocation ("" = not controlled)."""
@@ -88,7 +91,7 @@ class World:
         self.scn = scn
         self.clock = vclock.Clock()
         self.app = W.make_app(scn.family, max_pending_seconds=scn.max_pending_seconds,
-                              runner_considered_dead_after_minutes=scn.dead_after_minutes)
+                              runner_considered_dead_after_minutes=scn.dead_after_minutes, **scn.app_config)
         self.namer = Namer()
         self.rec = Recorder(self.app, self.namer, self.project)
         self.execs: dict[str, int] = {}
@@ -162,16 +165,20 @@ class World:
             except Exception:
                 retries[name] = 0
             try:
-                res[name] = str(sb.get_result(real))
-            except Exception:
+                res[name] = vtasks.digest(sb.get_result(real))
+            except KeyError:
                 pass
+            except Exception as ex:
+                res[name] = f"unreadable:{type(ex).__name__}"
             try:
-                e = sb.get_exception(real)
-                exc[name] = f"{type(e).__name__}:{e.args[0] if e.args else ''}"
-            except Exception:
+                exc[name] = vtasks.exc_digest(sb.get_exception(real))
+            except KeyError:
                 pass
+            except Exception as ex:
+                exc[name] = f"unreadable:{type(ex).__name__}"
         return {"st": st, "owner": owner, "queue": list(self.rec.queue), "retries": retries,
                 "res": res, "exc": exc}
+
 
     def history(self) -> dict[str, list[list[str]]]:
         out = {}
@@ -193,15 +200,20 @@ class World:
         outcome = script[min(n, len(script)) - 1]
         self.rec.ghost("body_enter", inv=name, runner=runner, n=n)
         sched.point("call", "body", args={"inv": name})
+        vals = self.scn.values.get(name)
+        custom = vals[min(n, len(vals)) - 1] if vals else None
         if outcome == "ok":
-            val = f"{name}#{n}"
-            self.rec.emit("body_exit", {"inv": name, "runner": runner, "n": n, "outcome": "ok", "val": val})
+            val = custom if vals else f"{name}#{n}"
+            self.rec.emit("body_exit", {"inv": name, "runner": runner, "n": n, "outcome": "ok",
+                                        "val": vtasks.digest(val)})
             return val
-        self.rec.emit("body_exit", {"inv": name, "runner": runner, "n": n, "outcome": outcome,
-                                    "val": f"{'RetryError' if outcome == 'retry' else 'ValueError'}:{name}#{n}"})
         if outcome == "retry":
-            raise RetryError(f"{name}#{n}")
-        raise ValueError(f"{name}#{n}")
+            ex: Exception = RetryError(f"{name}#{n}")
+        else:
+            ex = vtasks.make_exception(custom) if vals else ValueError(f"{name}#{n}")
+        self.rec.emit("body_exit", {"inv": name, "runner": runner, "n": n, "outcome": outcome,
+                                    "val": vtasks.exc_digest(ex)})
+        raise ex
 
     # ---- actor bodies ----------------------------------------------------------------
     def _call_args(self, name: str) -> tuple:
@@ -260,6 +272,22 @@ class World:
             raise
         except Exception as ex:
             self.rec.ghost("run_end", inv=name, runner=rctx.runner_id, ok=False, err=type(ex).__name__)
+
+    def reader(self, cname: str, inv_names: list[str], rounds: int = 3) -> Callable[[], None]:
+        """A client that keeps asking for status and result while the worker finishes the invocation."""
+        def run() -> None:
+            for _ in range(rounds):
+                for name in inv_names:
+                    inv = self.invs[name]
+                    inv._cached_status = None
+                    try:
+                        val = inv.get_final_result()
+                        self.rec.emit("client_result", {"inv": name}, vtasks.digest(val))
+                    except sched.ActorKilled:
+                        raise
+                    except Exception as ex:
+                        self.rec.emit("client_result", {"inv": name}, {"err": vtasks.exc_digest(ex)})
+        return run
 
     def worker(self, rname: str, inv_name: str) -> Callable[[], None]:
         def run() -> None:
@@ -321,6 +349,9 @@ class World:
             return f"p:{spec[1]}", self.poller(spec[1], spec[2], **kw), "poller"
         if kind == "recovery":
             return f"rec{spec[2][0]}:{spec[1]}", self.recovery(spec[1], spec[2]), "recovery"
+        if kind == "reader":
+            kw = spec[3] if len(spec) > 3 else {}
+            return f"c:{spec[1]}", self.reader(spec[1], spec[2], **kw), "reader"
         if kind == "worker":
             return f"w:{spec[1]}:{spec[2]}", self.worker(spec[1], spec[2]), "worker"
         if kind == "kill_reroute":
@@ -392,7 +423,8 @@ class World:
                             break
                 if not s.unfinished():
                     break
-                en = [n for n in s.enabled() if not s.actors[n].daemonic] or s.enabled()
+                en = s.enabled() if scn.hist_order == "random" else \
+                    ([n for n in s.enabled() if not s.actors[n].daemonic] or s.enabled())
                 if not en:
                     outcome = "deadlock"
                     break
@@ -415,7 +447,7 @@ class World:
             errors = {a.name: repr(a.error) for a in s.actors.values() if a.error is not None}
             # late history writers
             self.rec.ghost("quiescent", outcome=outcome)
-            s.drain_daemons()
+            s.drain_daemons(reverse=(scn.hist_order == "lifo"))
         self.sched = None
         self.app.state_backend.wait_for_all_async_operations()
         if self.scn.settle:
